@@ -241,4 +241,155 @@ example : getHeightTimer 100 0 [.counterpartyOfferedHTLCOutput 102] = 101 ∧
     getHeightTimer 100 0 [.holderFundingOutput] = 101 := by decide
 example : feerateBump 700 3000 546 2000 .forceBump 253 = some (1750, 2500) := by decide
 
+/-! ### Fees are raised monotonically, whatever the fee estimator answers
+
+    `computePackageFeerate` / `computePackageOutput` are TRANSLATED from
+    `PackageTemplate::compute_package_feerate` / `compute_package_output` on every run. -/
+
+/-- **package_feerate_monotone** — the target feerate `compute_package_feerate` hands to the
+    `BumpTransactionEvent` consumer (anchor channels: commitment bump, holder HTLC claims), for EVERY
+    stored previous feerate, EVERY strategy and EVERY estimator answer:
+    (a) is never below the previous one (`feerate_previous` is a u64 that is read saturating into a
+        u32 — for a previous feerate that is a u32, as every feerate this function ever answered is,
+        that is `prev ≤ result`);
+    (b) on the first issue (`prev = 0`) it is the floor-bounded estimate;
+    (c) `RetryPrevious` keeps the previous feerate, `HighestOfPreviousOrNew` is the maximum of it and
+        the bounded estimate;
+    (d) it never exceeds `max(prev, 5 × bounded estimate)`, never falls below the feerate floor once the
+        previous one was above it, and stays a u32 as long as `5 × estimate` does. -/
+theorem package_feerate_monotone (prev : Nat) (s : FeerateStrategy) (est : Nat) :
+    Nat.min prev U32_MAX ≤ computePackageFeerate prev s est ∧
+    (prev ≤ U32_MAX → prev ≤ computePackageFeerate prev s est) ∧
+    (prev = 0 → computePackageFeerate prev s est = boundedSatPer1000Weight est) ∧
+    (prev ≠ 0 → computePackageFeerate prev .retryPrevious est = Nat.min prev U32_MAX ∧
+        computePackageFeerate prev .highestOfPreviousOrNew est = Nat.max (Nat.min prev U32_MAX) (boundedSatPer1000Weight est)) ∧
+    computePackageFeerate prev s est ≤ Nat.max (Nat.min prev U32_MAX) (5 * boundedSatPer1000Weight est) ∧
+    ((prev = 0 ∨ FEERATE_FLOOR_SATS_PER_KW ≤ prev) → FEERATE_FLOOR_SATS_PER_KW ≤ computePackageFeerate prev s est) ∧
+    (5 * boundedSatPer1000Weight est ≤ U32_MAX → computePackageFeerate prev s est ≤ U32_MAX) := by
+  have hge := computePackageFeerate_ge prev s est
+  refine ⟨hge, ?_, ?_, ?_, computePackageFeerate_le prev s est, computePackageFeerate_floor prev s est,
+    computePackageFeerate_in_range prev s est⟩
+  · intro hp
+    rw [pf_nat_min_eq] at hge
+    omega
+  · intro hp
+    subst hp
+    exact computePackageFeerate_first s est
+  · intro hp
+    exact ⟨computePackageFeerate_retry prev est hp, computePackageFeerate_highest prev est hp⟩
+
+example : computePackageFeerate 0 .forceBump 100 = 253 ∧ computePackageFeerate 0 .retryPrevious 5000 = 5000 ∧
+    computePackageFeerate 2000 .retryPrevious 9000 = 2000 ∧ computePackageFeerate 2000 .highestOfPreviousOrNew 9000 = 9000 ∧
+    computePackageFeerate 2000 .highestOfPreviousOrNew 300 = 2000 := by decide
+
+/-- **force_bump_raises_unless_capped** — a timer-driven `ForceBump` of a claim issued before at a
+    (u32) feerate `prev` STRICTLY raises the target, except when the cap applies: the estimator now
+    answers at most a fifth of what was already paid (`5 × bounded estimate ≤ prev`) — then the
+    previous feerate is KEPT, the cap never pushes the target below it — or `prev` is already
+    `u32::MAX`.  Exactly: a higher estimate is followed; otherwise 25 % are added (saturating)
+    whenever that stays within 5 × the estimate. -/
+theorem force_bump_raises_unless_capped (prev est : Nat) (hp : prev ≠ 0) (hu : prev ≤ U32_MAX) :
+    (prev < computePackageFeerate prev .forceBump est ∨
+      (computePackageFeerate prev .forceBump est = prev ∧ (5 * boundedSatPer1000Weight est ≤ prev ∨ prev = U32_MAX))) ∧
+    (prev < boundedSatPer1000Weight est → computePackageFeerate prev .forceBump est = boundedSatPer1000Weight est) ∧
+    (boundedSatPer1000Weight est ≤ prev → satAdd32 prev (prev / 4) ≤ 5 * boundedSatPer1000Weight est →
+        computePackageFeerate prev .forceBump est = satAdd32 prev (prev / 4)) := by
+  refine ⟨computePackageFeerate_force prev est hp hu, ?_, computePackageFeerate_force_uncapped prev est hp hu⟩
+  intro h
+  apply computePackageFeerate_force_est prev est hp
+  rw [pf_nat_min_eq]
+  omega
+
+-- the estimator collapses from 2000 to the floor: the target stays at 2000 (capped, not lowered); a
+-- merely lower estimate: +25 %; a cap that still leaves room: 5 × estimate
+example : computePackageFeerate 2000 .forceBump 253 = 2000 ∧ computePackageFeerate 2000 .forceBump 1000 = 2500 ∧
+    computePackageFeerate 2000 .forceBump 450 = 2250 ∧ computePackageFeerate 2000 .forceBump 3000 = 3000 ∧
+    computePackageFeerate 1264 .forceBump 253 = 1265 ∧ computePackageFeerate 1265 .forceBump 253 = 1265 := by decide
+
+/-- **package_feerate_trajectory_monotone** — composition over ANY fee-estimator trajectory: whatever
+    the estimator answers at each (re-)issue of an externally funded claim and whichever strategy each
+    call uses (any list, any length), the successive target feerates are non-decreasing, none is below
+    the feerate the claim started with, and — started from a claim never issued before — none is below
+    the feerate floor.  Range hypothesis (where the Nat rendering of the u32 arithmetic is exact):
+    every estimate leaves `feerate_estimate * 5` inside a u32, i.e. is ≤ 858 993 459 sat/kW. -/
+theorem package_feerate_trajectory_monotone (prev : Nat) (steps : List (FeerateStrategy × Nat))
+    (hp : prev ≤ U32_MAX) (hr : ∀ p ∈ steps, 5 * boundedSatPer1000Weight p.2 ≤ U32_MAX) :
+    (extTargets prev steps).Pairwise (· ≤ ·) ∧
+    (∀ t ∈ extTargets prev steps, prev ≤ t ∧ t ≤ U32_MAX) ∧
+    (prev = 0 → ∀ t ∈ extTargets prev steps, FEERATE_FLOOR_SATS_PER_KW ≤ t) := by
+  refine ⟨extTargets_pairwise steps prev hp hr, extTargets_ge steps prev hp hr, ?_⟩
+  intro h0 t ht
+  subst h0
+  cases steps with
+  | nil => cases ht
+  | cons p rest =>
+    obtain ⟨s, est⟩ := p
+    have hfirst : FEERATE_FLOOR_SATS_PER_KW ≤ computePackageFeerate 0 s est :=
+      computePackageFeerate_floor 0 s est (Or.inl rfl)
+    have hin := computePackageFeerate_in_range 0 s est (hr (s, est) List.mem_cons_self)
+    simp only [extTargets, List.mem_cons] at ht
+    rcases ht with rfl | ht
+    · exact hfirst
+    · exact Nat.le_trans hfirst (extTargets_ge rest _ hin (fun q hq => hr q (List.mem_cons_of_mem _ hq)) t ht).1
+
+-- falling, oscillating and rising estimators
+example : extTargets 0 [(.forceBump, 2000), (.forceBump, 253), (.forceBump, 253), (.highestOfPreviousOrNew, 100), (.forceBump, 500), (.retryPrevious, 9), (.forceBump, 10000)] =
+    [2000, 2000, 2000, 2000, 2500, 2500, 10000] := by decide
+
+/-- **package_output_sound** — what `compute_package_output` answers for a self-funded claim: the
+    output is at least the dust limit and at most `max(inputs, dust)`; the feerate reaches the floor on
+    the first issue and (weight ≥ 4) is never below the previous one afterwards; the answer is
+    `feerate_bump`'s resp. `compute_fee_from_spent_amounts`' with the output clamped. -/
+theorem package_output_sound (amt w dust prev : Nat) (s : FeerateStrategy) (est out rate : Nat)
+    (h : computePackageOutput amt w dust prev s est = some (out, rate)) :
+    dust ≤ out ∧ out ≤ Nat.max amt dust ∧
+    (prev = 0 → FEERATE_FLOOR_SATS_PER_KW ≤ rate) ∧
+    (4 ≤ w → prev ≤ rate) ∧
+    (∃ fee, out = Nat.max (amt - fee) dust ∧
+      ((prev ≠ 0 ∧ feerateBump w amt dust prev s est = some (fee, rate)) ∨
+       (prev = 0 ∧ computeFeeFromSpentAmounts amt w est = some (fee, rate)))) := by
+  obtain ⟨fee, ho, hc⟩ := computePackageOutput_some h
+  have hmax : out = max (amt - fee) dust := ho
+  have hmax2 : Nat.max amt dust = max amt dust := rfl
+  refine ⟨by omega, by omega, ?_, ?_, ⟨fee, ho, hc⟩⟩
+  · intro h0
+    rcases hc with ⟨hp, _⟩ | ⟨_, hb⟩
+    · exact absurd h0 hp
+    · exact (computeFee_some hb).2.2
+  · intro hw
+    rcases ownStep_ge hw h with hh | hh <;> exact hh.1
+
+example : computePackageOutput 100000 700 546 0 .forceBump 2000 = some (98600, 2000) ∧
+    computePackageOutput 100000 700 546 2000 .forceBump 253 = some (98250, 2500) ∧
+    computePackageOutput 1000 700 546 0 .forceBump 253 = some (823, 253) ∧
+    computePackageOutput 600 700 546 0 .forceBump 2000 = some (546, 428) := by decide
+
+/-- **own_feerate_trajectory_monotone** — the same composition for a self-funded claim: over ANY list
+    of re-issues (estimator answer, strategy, and — packages get split and merged — amount, predicted
+    weight ≥ 4 and dust limit free at every step) the feerates of the transactions actually issued are
+    non-decreasing and never below the feerate stored at the start. -/
+theorem own_feerate_trajectory_monotone (prev : Nat) (rs : List Reissue) (hw : ∀ r ∈ rs, 4 ≤ r.weight) :
+    (ownFeerates prev rs).Pairwise (· ≤ ·) ∧ ∀ t ∈ ownFeerates prev rs, prev ≤ t :=
+  ⟨ownFeerates_pairwise rs prev hw, ownFeerates_ge rs prev hw⟩
+
+example : ownFeerates 0 [⟨100000, 700, 546, .forceBump, 2000⟩, ⟨100000, 700, 546, .forceBump, 253⟩,
+    ⟨600, 700, 546, .forceBump, 253⟩, ⟨100000, 650, 546, .highestOfPreviousOrNew, 253⟩, ⟨100000, 650, 546, .forceBump, 9000⟩] =
+    [2000, 2500, 2500, 9000] := by decide
+
+/-- **rebroadcast_fee_slack** — the satoshi-level exception to "fees only go up" (known finding
+    KF-C07-1): a plain re-broadcast (`RetryPrevious`; likewise `HighestOfPreviousOrNew` under a
+    non-higher estimate) of a self-funded claim last issued by `feerate_bump` with fee `F` and stored
+    feerate `r` keeps `r` but pays the fee RECOMPUTED from `r`, which was stored rounded down:
+    `F' = r·w/1000 ≤ F`, and the loss is bounded, `F ≤ F' + w/1000 + 1`.  (The re-issued transaction is
+    not an RBF replacement of the earlier one, which stays in the mempools.) -/
+theorem rebroadcast_fee_slack (w inp dust prev : Nat) (s : FeerateStrategy) (est est' F r F' r' : Nat) (hw : 0 < w)
+    (h : feerateBump w inp dust prev s est = some (F, r))
+    (h' : feerateBump w inp dust r .retryPrevious est' = some (F', r')) :
+    r' = r ∧ F' = r * w / 1000 ∧ F' ≤ F ∧ F ≤ F' + w / 1000 + 1 :=
+  retry_after_bump hw h h'
+
+-- the concrete input of KF-C07-1: bumped to 65 788 sat (stored 28 405 sat/kW), re-broadcast with 65 785 sat
+example : feerateBump 2316 888716 330 22725 .forceBump 655 = some (65788, 28405) ∧
+    feerateBump 2316 888716 330 28405 .retryPrevious 648 = some (65785, 28405) := by decide
+
 end Ldk.C07
